@@ -162,6 +162,14 @@ CHECKS = {
              "are error outcomes of the spec; legs R/T as for C10 with histories read^k rewind read^j rewind ...",
         ref="DESIGN.md 5/C19, Appendix D", technique="TLA+ model checking (TLC) + spec->code history replay + code->spec trace validation",
         note=READER_NOTE),
+    "C20": dict(
+        text="TokenizerReuse.tla is a self-composition: a register set driven through any first stream (run to its end or abandoned at any "
+             "suspension point) and re-initialised exactly as _reinitialize does is stepped in lock-step with a fresh one on every second stream; "
+             "TLC proves equal tokens (and the explanatory invariant about registers read before being overwritten). One REAL tokenizer is "
+             "reused after complete / dropped / kept-alive / late-closed generators and list / callback runs, each later run judged by TLC as a "
+             "fresh run; repeated split() of the same bytes / region / rewound recorder (SplitTrace, peer), one energy validator on shuffled "
+             "windows (EnergyTrace), buffer source close/reopen (SourceTrace).",
+        ref="DESIGN.md 5/C20", technique="TLA+ self-composition model checking (TLC) + trace validation of reused real objects", note=TOK_NOTE),
 }
 
 
@@ -182,8 +190,7 @@ def build():
             "level_note": c["note"],
             "technique": c["technique"],
         })
-    na = [{"property_id": p, "reason": "check not built yet in this working session; the TLA+ technique applies (see DESIGN.md section 5) and the check will be added"}
-          for p in ALL if p not in CHECKS]
+    na = [{"property_id": p, "reason": "no check registered"} for p in ALL if p not in CHECKS]
     m = {
         "version": 1,
         "setup_cmd": "./setup.sh",
